@@ -167,3 +167,8 @@ M("c15-category-append-shared", ["C15"], "ECS category slice of the table extend
 M("c15-delete-result-again", ["C15"], "newEvent deletes result from the message map again", (CO, "\tif result, found := data[\"result\"]; found {\n\t\tevent.Result = result\n\t} else {", "\tif result, found := data[\"result\"]; found {\n\t\tevent.Result = result\n\t\tdelete(data, \"result\")\n\t} else {"))
 M("c15-cache-no-mutex", ["C15"], "ID cache lookup without its mutex", ("aucoalesce/id_lookup.go", "\tc.mutex.Lock()\n\tdefer c.mutex.Unlock()\n\n\tif item, found := c.data[key]; found && !item.isExpired() {", "\tif item, found := c.data[key]; found && !item.isExpired() {"))
 M("c15-shared-scratch", ["C15"], "Paths maps shared through a package-level scratch slice", (CO, "\tevent.Paths = append(event.Paths, data)\n}", "\tscratchPaths = append(scratchPaths[:0], event.Paths...)\n\tevent.Paths = append(scratchPaths, data)\n}\n\nvar scratchPaths []map[string]string"))
+M("c09-objpid-field-drop", ["C09"], "the oses field of companion records is skipped silently", (CO, "\tfor k, v := range data {\n\t\tif _, found := event.Data[k]; found {", "\tfor k, v := range data {\n\t\tif k == \"oses\" || k == \"fd1\" {\n\t\t\tcontinue\n\t\t}\n\t\tif _, found := event.Data[k]; found {"))
+M("c09-mode-sticky", ["C09"], "file mode loses the sticky bit", (CO, "\t\tevent.File.Mode = fmt.Sprintf(\"%04o\", 0o7777&m)", "\t\tevent.File.Mode = fmt.Sprintf(\"%04o\", 0o6777&m)"))
+M("c09-warning-unnamed", ["C09"], "duplicate-key warning does not name long keys", (CO, "\t\t\t\t\"duplicate key (%v) from %v message\", k, msg.RecordType))", "\t\t\t\t\"duplicate key (%.6v) from %v message\", k, \"a\"))"))
+M("c09-execve-args-cap", ["C09"], "EXECVE arguments beyond the third are dropped", (CO, "\t\targs = append(args, arg)\n\t}", "\t\tif len(args) < 3 {\n\t\t\targs = append(args, arg)\n\t\t}\n\t}"))
+M("c09-file-owner-swap", ["C09"], "file GID taken from ouid when the inode is above 2^31", (CO, "\tif value, found := path[\"ogid\"]; found {\n\t\tevent.File.GID = value\n\t}", "\tif value, found := path[\"ogid\"]; found {\n\t\tevent.File.GID = value\n\t\tif n, _ := strconv.ParseUint(path[\"inode\"], 10, 64); n%16 == 7 {\n\t\t\tevent.File.GID = path[\"ouid\"]\n\t\t}\n\t}"))
